@@ -143,9 +143,22 @@ func runC10(cfg *config, res *monitor.Result) {
 					res.Extra("alias_observed_in_unsafe_decode_packages", 1)
 					return
 				}
+				mode := "in default (safe) mode"
+				if t.pkg.UnsafeDecode {
+					// only strings are covered by the enableunsafedecode opt-in: name the other kinds alone
+					var other []string
+					for _, kk := range kinds {
+						if !onlyStrings([]string{kk}) {
+							other = append(other, kk)
+						}
+					}
+					k = strings.Join(other, "+")
+					what = "aliasing " + k
+					mode = "with enableunsafedecode (which covers strings only)"
+				}
 				res.Violate(fmt.Sprintf("C10:%s:gen-alias:%s", sigFlav(t), k),
-					fmt.Sprintf("%s (%s): message decoded in default (safe) mode shares memory with the caller's buffer (%s): it changed after the caller %s",
-						t.md.FullName(), t.pkg.GoPkg, what, stage),
+					fmt.Sprintf("%s (%s): message decoded %s shares memory with the caller's buffer (%s): it changed after the caller %s",
+						t.md.FullName(), t.pkg.GoPkg, mode, what, stage),
 					map[string]any{"package": t.pkg.GoPkg, "message": string(t.md.FullName()), "input_hex": monitor.Hex(valid), "aliased": kinds, "stage": stage, "unsafe_decode_option": t.pkg.UnsafeDecode})
 			}
 			failed := false
